@@ -237,15 +237,32 @@ func roundTrip(vals []tval, checkTrunc bool) kit.Result {
 	if !bytes.Equal(enc, spec) {
 		return kit.Bad("encoding!=spec", "encoded %s, TL spec says %s", short(enc), short(spec))
 	}
-	rd := &bin.Buffer{Buf: enc}
+	// decode from a private copy of the encoding, keep what the decoders returned, then overwrite that
+	// copy: a decoded value must not depend on the memory it was decoded from (read buffers are reused)
+	src := append([]byte(nil), enc...)
+	rd := &bin.Buffer{Buf: src}
+	held := make([]func() []byte, len(vals))
 	for i, v := range vals {
-		p := primByName(v.T)
 		before := rd.Len()
-		got, err := p.dec(rd)
+		var err error
+		switch v.T {
+		case "bytes":
+			var x []byte
+			x, err = rd.Bytes()
+			held[i] = func() []byte { return x }
+		case "string":
+			var x string
+			x, err = rd.String()
+			held[i] = func() []byte { return []byte(x) }
+		default:
+			var x []byte
+			x, err = primByName(v.T).dec(rd)
+			held[i] = func() []byte { return x }
+		}
 		if err != nil {
 			return kit.Bad("roundtrip-error:"+v.T, "value #%d (%s, %d content bytes) does not decode: %v", i, v.T, len(v.Raw), err)
 		}
-		if !bytes.Equal(got, v.Raw) {
+		if got := held[i](); !bytes.Equal(got, v.Raw) {
 			return kit.Bad("roundtrip-value:"+v.T, "value #%d (%s): wrote %s, read %s", i, v.T, short(v.Raw), short(got))
 		}
 		if want := specLen[i]; before-rd.Len() != want {
@@ -254,6 +271,14 @@ func roundTrip(vals []tval, checkTrunc bool) kit.Result {
 	}
 	if rd.Len() != 0 {
 		return kit.Bad("roundtrip-consumption", "%d bytes left after decoding everything", rd.Len())
+	}
+	for i := range src {
+		src[i] = 0xA5
+	}
+	for i, v := range vals {
+		if got := held[i](); !bytes.Equal(got, v.Raw) {
+			return kit.Bad("value-aliases-source:"+v.T, "value #%d (%s, %d content bytes) was decoded correctly but changed when the buffer it was decoded from was overwritten", i, v.T, len(v.Raw))
+		}
 	}
 	if checkTrunc {
 		// any input shorter than the encoding is short for the value that is cut: some decode must fail
@@ -448,9 +473,9 @@ func main() {
 			return
 		}
 		c.Rule("Round trip (encode with bin.Buffer.Put*, compare with a TL-spec reference encoder, decode, compare value and consumed length, " +
-			"then cut 1..4 bytes and require an error): every fixed-width primitive x boundary alphabet (all one-hot bits, 0, -1, min, max, counting pattern, " +
+			"after overwriting the decoded-from buffer with 0xA5 the held value must still be the same (class value-aliases-source), then cut 1..4 bytes and require an error): every fixed-width primitive x boundary alphabet (all one-hot bits, 0, -1, min, max, counting pattern, " +
 			"NaN/Inf/denormal bit patterns for double, all one-hot bytes for int128/int256, vector headers 0/1/1023/1024/2^31-1); string and bytes of every " +
-			"length 0..300 (thorough 0..1100) and {65535,65536,65537,2^24-4..2^24-1} x content patterns {zero,ff,fe,count,utf8}; every concatenation of <=3 " +
+			"length 0..300 (thorough 0..1100) and {1023,1024,4095,4096,4097,65535,65536,65537,2^20,2^24-4..2^24-1} x content patterns {zero,ff,fe,count,utf8}; every concatenation of <=3 " +
 			"values of a 27-value typed alphabet (thorough: <=3, plus every 4-sequence over a 9-value sub-alphabet). " +
 			"Decode safety (reference decoder says ok/short/malformed; short or malformed input must give an error, a canonical encoding must give the value and " +
 			"consumption, no panic): for each of the 17 decode entry points every byte string of length <=3 over all 256 byte values (quick: length 3 only for the 8 entry points int, long, int128, int256, bool, vector, string, bytes that do not delegate to another one; length <=2 for all), every string of length <=6 " +
@@ -517,7 +542,7 @@ func main() {
 		for l := 0; l <= maxLen; l++ {
 			lens = append(lens, l)
 		}
-		lens = append(lens, 65535, 65536, 65537, 1<<24-4, 1<<24-3, 1<<24-2, 1<<24-1)
+		lens = append(lens, 1023, 1024, 4095, 4096, 4097, 1<<20, 65535, 65536, 65537, 1<<24-4, 1<<24-3, 1<<24-2, 1<<24-1)
 		var sj []wString
 		for _, l := range lens {
 			for _, t := range []string{"string", "bytes"} {
